@@ -250,7 +250,8 @@ func (w *world) execCtx(ctx context.Context, f []string) string {
 		workers, _ := strconv.Atoi(f[1])
 		cops := w.cops
 		w.cops = nil
-		out := w.runConcurrent(cops, w.parks, workers, 30*time.Second)
+		// (a watchdog against deadlock, not a performance bound: it grows with the number of requests)
+		out := w.runConcurrent(cops, w.parks, workers, 30*time.Second+time.Duration(len(cops))*150*time.Millisecond)
 		if strings.HasPrefix(out, "TIMEOUT") {
 			// the instance may be wedged: report and stop this process
 			fmt.Println(out)
@@ -353,6 +354,10 @@ func (w *world) execCtx(ctx context.Context, f []string) string {
 		return manyStr(rs, sigs)
 	case "restart":
 		w.restart()
+		return "ok"
+	case "pause":
+		ms, _ := strconv.Atoi(f[1])
+		time.Sleep(time.Duration(ms) * time.Millisecond)
 		return "ok"
 	case "list":
 		if w.viaGrpc {
@@ -491,6 +496,7 @@ func runEngine(workdir string) {
 		if w != nil && w.rules != nil {
 			w.closeRules()
 		}
+		removeStallFirst()
 		n++
 		dir := fmt.Sprintf("%s/w%d", workdir, n)
 		if d := os.Getenv("DH_DIR"); d != "" {
